@@ -2374,3 +2374,491 @@ end
 end Dltype.Gen
 """
     return out
+
+
+# =====================================================================================================================
+# _symbolic_expressions.py (class table, operand check, constructors, every __str__, operator overloads) and
+# TensorTypeBase.__class_getitem__  ->  Generated/SymClasses.lean
+# =====================================================================================================================
+
+SYM_HEADER = """/-- transitive subclass test over the class statements of the module (fuel = number of classes) -/
+def isSub : Nat → String → String → Bool
+  | 0, c, d => c == d
+  | n + 1, c, d => c == d || ((symBases.lookup c).getD []).any (fun b => isSub n b d)
+
+def sub (c d : String) : Bool := isSub symBases.length c d
+
+/-- the classes of the Python objects a node of the model's tree stands for (fixed text: the reading of `Sym`) -/
+def classesOf : Sym → List String
+  | .lit _ => ["int", "LiteralAxis"]
+  | .var _ => ["VariableAxis"]
+  | .bad => ["ConstantAxis", "AnonymousAxis"]
+  | .grp _ => ["Group"]
+  | .isqrt _ => ["ISqrt", "ComputedAxis"]
+  | .fn2 .min _ _ => ["Min", "ComputedAxis"]
+  | .fn2 .max _ _ => ["Max", "ComputedAxis"]
+  | .fn2 .isqrt _ _ => []
+  | .bin .add _ _ => ["ComputedAxis", "Add"]
+  | .bin .sub _ _ => ["ComputedAxis", "Subtract"]
+  | .bin .mul _ _ => ["ComputedAxis", "Multiply"]
+  | .bin .div _ _ => ["ComputedAxis", "Divide"]
+  | .bin .exp _ _ => ["ComputedAxis", "Exp"]
+
+/-- `x.value` (only `LiteralAxis` has the property) -/
+def valueOf : Sym → Except PrintErr Int
+  | .lit n => .ok n
+  | _ => .error .unmodelled
+
+/-- `f"{<int expression>}"` -/
+def fmtR : Py.R → Except PrintErr (List Char)
+  | .val v => .ok (intStr v)
+  | .pyExc .zeroDivision => .error .zeroDivision
+  | .pyExc .valueError => .error .valueError
+  | _ => .error .unmodelled
+
+/-- `isinstance(<stored operand>, cls)` where the constructor stored `stored c` for an operand of class `c` -/
+def storedIs (stored : String → String) (s : Sym) (cls : String) : Bool :=
+  (classesOf s).all (fun c => sub (stored c) cls)
+
+/-- `sep.join(parts)` -/
+def joinStr (sep : List Char) : List (List Char) → List Char
+  | [] => []
+  | [x] => x
+  | x :: xs => x ++ sep ++ joinStr sep xs
+
+"""
+
+SYM_NODES = [  # (source class, Lean pattern with the constructor's parameter names, wrapped in ComputedAxis by the operators)
+    ("ISqrt", ".isqrt {0}", False), ("Group", ".grp {0}", False),
+    ("Min", ".fn2 .min {0} {1}", False), ("Max", ".fn2 .max {0} {1}", False),
+    ("Add", ".bin .add {0} {1}", True), ("Subtract", ".bin .sub {0} {1}", True), ("Multiply", ".bin .mul {0} {1}", True),
+    ("Divide", ".bin .div {0} {1}", True), ("Exp", ".bin .exp {0} {1}", True),
+]
+SYM_DUNDER_NODE = {"Add": "Sym.bin .add", "Subtract": "Sym.bin .sub", "Multiply": "Sym.bin .mul", "Divide": "Sym.bin .div", "Exp": "Sym.bin .exp",
+                   "Min": "Sym.fn2 .min", "Max": "Sym.fn2 .max"}
+
+
+def _lstr(s: str) -> str:
+    return '"' + s.replace("\\", "\\\\").replace('"', '\\"') + '"'
+
+
+class SymStr:
+    """compiles the body of one `__str__` (or a str-valued expression) over the fields of `self`"""
+
+    def __init__(self, where, fields):
+        self.where = where
+        self.fields = fields  # field -> ("axis", var, storedfn) | ("int", var) | ("name", var) | ("printed", var) | ("strflag", var, isstr)
+        self.n = 0
+
+    def fresh(self, p):
+        self.n += 1
+        return f"{p}{self.n - 1}"
+
+    def field(self, e):
+        if isinstance(e, ast.Attribute) and isinstance(e.value, ast.Name) and e.value.id == "self" and e.attr in self.fields:
+            return self.fields[e.attr]
+        return None
+
+    def cond(self, e) -> str:
+        if isinstance(e, ast.BoolOp):
+            return "(" + (" && " if isinstance(e.op, ast.And) else " || ").join(self.cond(v) for v in e.values) + ")"
+        if isinstance(e, ast.UnaryOp) and isinstance(e.op, ast.Not):
+            return f"(!{self.cond(e.operand)})"
+        if isinstance(e, ast.Call) and _src(e.func) == "isinstance" and len(e.args) == 2 and not e.keywords:
+            f = self.field(e.args[0])
+            classes = _union_names(e.args[1])
+            if f is not None and classes is not None:
+                if f[0] == "axis":
+                    return "(" + " || ".join(f"storedIs {f[2]} {f[1]} {_lstr(c)}" for c in classes) + ")"
+                if f[0] == "strflag":
+                    return "(" + " || ".join(("true" if c == ("str" if f[2] else "EllipsisType") else "false") for c in classes) + ")"
+        raise TErr(f"{self.where}: condition `{_src(e)}`")
+
+    def intexpr(self, e, binds) -> tuple[str, str]:
+        """-> (kind, term) with kind Int | R"""
+        f = self.field(e)
+        if f is not None and f[0] == "int":
+            return "Int", f[1]
+        if isinstance(e, ast.Attribute) and e.attr == "value":
+            g = self.field(e.value)
+            if g is not None and g[0] == "axis":
+                v = self.fresh("v")
+                binds.append(f"let {v} ← valueOf {g[1]}")
+                return "Int", v
+        if isinstance(e, ast.BinOp):
+            prim = {ast.Add: "Py.add", ast.Sub: "Py.sub", ast.Mult: "Py.mul", ast.FloorDiv: "Py.floordiv", ast.Pow: "Py.pow"}.get(type(e.op))
+            if prim is not None:
+                (k1, a), (k2, b) = self.intexpr(e.left, binds), self.intexpr(e.right, binds)
+                if k1 == k2 == "Int":
+                    return "R", f"({prim} {a} {b})"
+        if isinstance(e, ast.Call) and not e.keywords and _src(e.func) in ("min", "max", "math.isqrt"):
+            prim = {"min": "Py.min", "max": "Py.max", "math.isqrt": "Py.isqrt"}[_src(e.func)]
+            args = [self.intexpr(a, binds) for a in e.args]
+            if all(k == "Int" for k, _ in args) and len(args) == (1 if prim == "Py.isqrt" else 2):
+                return "R", "(" + " ".join([prim] + [t for _, t in args]) + ")"
+        raise TErr(f"{self.where}: integer expression `{_src(e)}`")
+
+    def strexpr(self, e, binds) -> str:
+        """-> Lean term : List Char; `binds` collects the monadic steps in evaluation order"""
+        if isinstance(e, ast.Constant) and isinstance(e.value, str):
+            return f"{_lstr(e.value)}.toList"
+        if isinstance(e, ast.JoinedStr):
+            parts = []
+            for p in e.values:
+                if isinstance(p, ast.Constant):
+                    parts.append(f"{_lstr(p.value)}.toList")
+                elif isinstance(p, ast.FormattedValue) and p.conversion == -1 and p.format_spec is None:
+                    parts.append(self.fmt(p.value, binds))
+                else:
+                    raise TErr(f"{self.where}: f-string part `{_src(p)}`")
+            return "(" + " ++ ".join(parts) + ")" if parts else "([] : List Char)"
+        if isinstance(e, ast.Call) and _src(e.func) == "str" and len(e.args) == 1 and not e.keywords:
+            return self.fmt(e.args[0], binds)
+        if isinstance(e, ast.BinOp) and isinstance(e.op, ast.Add):
+            return f"({self.strexpr(e.left, binds)} ++ {self.strexpr(e.right, binds)})"
+        if isinstance(e, ast.IfExp):
+            c = self.cond(e.test)
+            b1, b2 = [], []
+            t1, t2 = self.strexpr(e.body, b1), self.strexpr(e.orelse, b2)
+            if b1 or b2:
+                raise TErr(f"{self.where}: conditional expression with effects `{_src(e)}`")
+            return f"(if {c} then {t1} else {t2})"
+        raise TErr(f"{self.where}: string expression `{_src(e)}`")
+
+    def fmt(self, e, binds) -> str:
+        """`str(e)` / `f"{e}"`"""
+        f = self.field(e)
+        if f is not None:
+            if f[0] == "axis":
+                s = self.fresh("s")
+                binds.append(f"let {s} ← symStr {f[1]}")
+                return s
+            if f[0] == "printed":
+                s = self.fresh("s")
+                binds.append(f"let {s} ← {f[1]}")
+                return s
+            if f[0] in ("name", "strflag"):
+                return f[1]
+            if f[0] == "int":
+                return f"intStr {f[1]}"
+        kind, term = self.intexpr(e, binds)
+        if kind == "Int":
+            return f"intStr {term}"
+        s = self.fresh("s")
+        binds.append(f"let {s} ← fmtR {term}")
+        return s
+
+    def ret(self, e) -> str:
+        binds = []
+        t = self.strexpr(e, binds)
+        return "(do " + "; ".join(binds + [f"pure ({t})"]) + ")" if binds else f"(.ok ({t}))"
+
+    def body(self, stmts) -> str:
+        stmts = _strip(stmts)
+        if not stmts:
+            raise TErr(f"{self.where}: falls off the end")
+        s = stmts[0]
+        if isinstance(s, ast.Return) and s.value is not None and len(stmts) == 1:
+            return self.ret(s.value)
+        if isinstance(s, ast.If) and not s.orelse and len(s.body) == 1 and isinstance(s.body[0], ast.Return) and s.body[0].value is not None:
+            return f"(if {self.cond(s.test)} then {self.ret(s.body[0].value)} else {self.body(stmts[1:])})"
+        raise TErr(f"{self.where}: statement `{_src(s)[:100]}`")
+
+
+def _union_names(e):
+    """`A | B | C` or a single name -> list of class names (`None` is NoneType)"""
+    if isinstance(e, ast.BinOp) and isinstance(e.op, ast.BitOr):
+        a, b = _union_names(e.left), _union_names(e.right)
+        return None if a is None or b is None else a + b
+    if isinstance(e, ast.Name):
+        return [e.id]
+    if isinstance(e, ast.Constant) and e.value is None:
+        return ["NoneType"]
+    return None
+
+
+def gen_symbolic(lib_dir: str, header: str) -> str:
+    with open(os.path.join(lib_dir, "_symbolic_expressions.py")) as fh:
+        mod = ast.parse(fh.read(), filename="_symbolic_expressions.py")
+    classes = {n.name: n for n in mod.body if isinstance(n, ast.ClassDef)}
+    for n in classes.values():
+        if n.keywords or n.decorator_list:
+            raise TErr(f"class {n.name}: keywords / decorators")
+
+    def method(cls, name):
+        for m in classes[cls].body:
+            if isinstance(m, ast.FunctionDef) and m.name == name:
+                return m
+        return None
+
+    def owner(cls, name, seen=()):
+        """the class whose definition of `name` an instance of `cls` uses (the hierarchy is a tree apart from ABC)"""
+        if cls not in classes or cls in seen:
+            return None
+        if method(cls, name) is not None:
+            return cls
+        for b in classes[cls].bases:
+            o = owner(_src(b), name, seen + (cls,))
+            if o is not None:
+                return o
+        return None
+
+    out = header
+    out += "import DltypeModel.Symbolic\nimport DltypeModel.PyPrims\nimport DltypeModel.Generated.ShapeLoop\nset_option linter.unusedVariables false\nnamespace Dltype.Gen\nopen Dltype\n\n"
+    out += "/-- `class X(A, B):` of _symbolic_expressions.py, in source order -/\ndef symBases : List (String × List String) := [" + ", ".join(
+        f"({_lstr(c)}, [" + ", ".join(_lstr(_src(b)) for b in n.bases) + "])" for c, n in classes.items()) + "]\n\n"
+    out += SYM_HEADER
+
+    # ---- _assert_operand ------------------------------------------------------------------------------------------
+    fn = next((n for n in mod.body if isinstance(n, ast.FunctionDef) and n.name == "_assert_operand"), None)
+    if fn is None or [a.arg for a in fn.args.args] != ["operand"]:
+        raise TErr("_assert_operand(operand) not found")
+    b = _strip(fn.body)
+    if not (len(b) == 1 and isinstance(b[0], ast.If) and not b[0].orelse and isinstance(b[0].body[-1], ast.Raise)
+            and all(isinstance(x, ast.Assign) and isinstance(x.value, (ast.JoinedStr, ast.Constant)) for x in b[0].body[:-1])):
+        raise TErr("_assert_operand: not `if <test>: raise ...`")
+    exc = b[0].body[-1].exc
+    if not (isinstance(exc, ast.Call) and _src(exc.func) == "TypeError"):
+        raise TErr(f"_assert_operand raises `{_src(exc)[:60]}`")
+
+    def class_test(e, var):
+        if isinstance(e, ast.BoolOp):
+            return "(" + (" && " if isinstance(e.op, ast.And) else " || ").join(class_test(v, var) for v in e.values) + ")"
+        if isinstance(e, ast.UnaryOp) and isinstance(e.op, ast.Not):
+            return f"(!{class_test(e.operand, var)})"
+        if isinstance(e, ast.Call) and _src(e.func) == "isinstance" and len(e.args) == 2 and _src(e.args[0]) == var:
+            names = _union_names(e.args[1])
+            if names is not None:
+                return "(" + " || ".join(f"sub c {_lstr(n)}" for n in names) + ")"
+        raise TErr(f"class test `{_src(e)}`")
+
+    out += "/-- `_assert_operand(operand)` passes for an operand of class `c` -/\n"
+    out += f"def okClass (c : String) : Bool := !{class_test(b[0].test, 'operand')}\n\n"
+    out += ("/-- `_assert_operand` on what a node stands for (a node that stands for objects of several classes must get one verdict) -/\n"
+            "def assertOperand (s : Sym) : Except PrintErr Unit :=\n  if (classesOf s).all okClass then .ok ()\n"
+            "  else if (classesOf s).all (fun c => !okClass c) then .error .typeError else .error .unmodelled\n\n")
+
+    # ---- constructors ---------------------------------------------------------------------------------------------
+    inits = {}
+    for cls in ("UnaryAxisOperationBase", "Group", "BinaryAxisOperationBase"):
+        f = method(cls, "__init__")
+        if f is None:
+            raise TErr(f"{cls}.__init__ not found")
+        params = [a.arg for a in f.args.args][1:]
+        if f.args.kwonlyargs or f.args.vararg or f.args.kwarg or f.args.defaults:
+            raise TErr(f"{cls}.__init__: parameters `{_src(f.args)}`")
+        asserts, fields = [], {}
+        for s in _strip(f.body):
+            if isinstance(s, ast.Expr) and isinstance(s.value, ast.Call) and _src(s.value.func) == "_assert_operand" and len(s.value.args) == 1 \
+                    and _src(s.value.args[0]) in params:
+                asserts.append(_src(s.value.args[0]))
+                continue
+            if isinstance(s, ast.Assign) and len(s.targets) == 1 and isinstance(s.targets[0], ast.Attribute) and _src(s.targets[0].value) == "self":
+                fld = s.targets[0].attr
+                v = s.value
+                if isinstance(v, ast.Name) and v.id in params:
+                    fields[fld] = (v.id, None)
+                    continue
+                if isinstance(v, ast.IfExp) and isinstance(v.body, ast.Name) and v.body.id in params and isinstance(v.orelse, ast.Call) \
+                        and _src(v.orelse.func) == "LiteralAxis" and [_src(a) for a in v.orelse.args] == [v.body.id]:
+                    fields[fld] = (v.body.id, class_test(v.test, v.body.id))
+                    continue
+            raise TErr(f"{cls}.__init__: statement `{_src(s)[:100]}`")
+        inits[cls] = (params, asserts, fields)
+        short = cls.replace("AxisOperationBase", "")
+        out += f"/-- `{cls}.__init__`: the operand checks, in order -/\n"
+        out += f"def build{short} ({' '.join(params)} : Sym) : Except PrintErr Unit := do\n" + "".join(f"  assertOperand {p}\n" for p in asserts) + "  pure ()\n\n"
+        for fld, (p, cond) in fields.items():
+            nm = f"stored{short}{fld}"
+            out += f"/-- what `{cls}.__init__` stores in `self.{fld}` for an operand of class `c` -/\n"
+            out += f"def {nm} (c : String) : String := " + (f"if {cond} then c else \"LiteralAxis\"" if cond else "c") + "\n\n"
+
+    # LiteralAxis / VariableAxis : value holders
+    for cls, param, fld in (("LiteralAxis", "value", "_value"), ("VariableAxis", "identifier", "_identifier")):
+        f = method(cls, "__init__")
+        if f is None or [a.arg for a in f.args.args] != ["self", param] or [_src(s) for s in _strip(f.body)] != [f"self.{fld} = {param}"]:
+            raise TErr(f"{cls}.__init__ is not `self.{fld} = {param}`")
+    f = method("LiteralAxis", "value")
+    if f is None or [_src(d) for d in f.decorator_list] != ["property"] or [_src(s) for s in _strip(f.body)] != ["return self._value"]:
+        raise TErr("LiteralAxis.value is not the property returning self._value")
+    f = method("ComputedAxis", "__init__")
+    if f is None or [a.arg for a in f.args.args] != ["self", "computation"] or [_src(s) for s in _strip(f.body)] != ["self._computation = computation"]:
+        raise TErr("ComputedAxis.__init__ is not `self._computation = computation`")
+
+    # ---- __str__ --------------------------------------------------------------------------------------------------
+    def str_of(cls):
+        o = owner(cls, "__str__")
+        if o is None:
+            raise TErr(f"{cls}.__str__ not found")
+        f = method(o, "__str__")
+        if [a.arg for a in f.args.args] != ["self"] or any(_src(d) not in ("override", "abstractmethod") for d in f.decorator_list):
+            raise TErr(f"{o}.__str__: signature / decorators")
+        if any(_src(d) == "abstractmethod" for d in f.decorator_list):
+            raise TErr(f"{cls} uses the abstract __str__ of {o}")
+        return f
+
+    f = str_of("ComputedAxis")
+    out += "/-- `ComputedAxis.__str__` over the printed computation -/\n"
+    out += "def computedStr (computation : Except PrintErr (List Char)) : Except PrintErr (List Char) :=\n  "
+    out += SymStr("ComputedAxis.__str__", {"_computation": ("printed", "computation")}).body(f.body) + "\n\n"
+
+    arms = []
+    f = str_of("LiteralAxis")
+    arms.append(("| .lit value", SymStr("LiteralAxis.__str__", {"_value": ("int", "value")}).body(f.body), False))
+    f = str_of("VariableAxis")
+    arms.append(("| .var identifier", SymStr("VariableAxis.__str__", {"_identifier": ("name", "identifier")}).body(f.body), False))
+    arms.append(("| .bad", "(.error .typeError)", False))
+    for cls, pat, wrapped in SYM_NODES:
+        if cls not in classes:
+            raise TErr(f"class {cls} not found")
+        io = owner(cls, "__init__")
+        if io not in inits:
+            raise TErr(f"{cls} is constructed by {io}.__init__")
+        params, _, fields = inits[io]
+        short = io.replace("AxisOperationBase", "")
+        if len(params) != pat.count("{"):
+            raise TErr(f"{cls}: {io}.__init__ takes {params}")
+        fmap = {fld: ("axis", p, f"stored{short}{fld}") for fld, (p, _) in fields.items()}
+        arms.append(("| " + pat.format(*params), SymStr(f"{cls}.__str__", fmap).body(str_of(cls).body), wrapped))
+    arms.append(("| .fn2 .isqrt _ _", "(.error .unmodelled)", False))
+    out += "/-- `str()` of the object a node stands for: the `__str__` of its class over the fields its constructor stored -/\n"
+    out += "def symStr : Sym → Except PrintErr (List Char)\n"
+    for pat, body, wrapped in arms:
+        out += f"  {pat} => " + (f"computedStr {body}" if wrapped else body) + "\n"
+    out += "\n"
+    out += "/-- constructing the objects of an expression: operands first (left to right), then the node's own constructor -/\n"
+    out += "def symBuild : Sym → Except PrintErr Unit\n  | .lit _ => .ok ()\n  | .var _ => .ok ()\n  | .bad => .ok ()\n"
+    for cls, pat, _ in SYM_NODES:
+        io = owner(cls, "__init__")
+        params = inits[io][0]
+        short = io.replace("AxisOperationBase", "")
+        out += f"  | {pat.format(*params)} => do " + "; ".join([f"symBuild {p}" for p in params] + [f"build{short} {' '.join(params)}"]) + "\n"
+    out += "  | .fn2 .isqrt _ _ => .error .unmodelled\n\n"
+    out += "/-- evaluating the operator expression, then `str()` of the result -/\ndef symPrint (s : Sym) : Except PrintErr (List Char) := do symBuild s; symStr s\n\n"
+
+    # ---- operator overloads ---------------------------------------------------------------------------------------
+    res = method("OperableAxis", "__resolve_expr_sides")
+    if res is None or _src(res.args) != "self, other: OperableAxisT, *, reverse: bool=False":
+        raise TErr("OperableAxis.__resolve_expr_sides: parameters")
+    lines = []
+    loc = {"self": "self", "other": "other"}
+    rb = _strip(res.body)
+
+    def side(e):
+        if isinstance(e, ast.Name) and e.id in loc:
+            return loc[e.id]
+        if isinstance(e, ast.IfExp) and _src(e.test) == "reverse":
+            return f"(if reverse then {side(e.body)} else {side(e.orelse)})"
+        if isinstance(e, ast.IfExp) and _src(e.test) == "not reverse":
+            return f"(if !reverse then {side(e.body)} else {side(e.orelse)})"
+        raise TErr(f"__resolve_expr_sides: `{_src(e)}`")
+
+    for s in rb[:-1]:
+        if not (isinstance(s, ast.Assign) and len(s.targets) == 1 and isinstance(s.targets[0], ast.Name)):
+            raise TErr(f"__resolve_expr_sides: statement `{_src(s)}`")
+        lines.append(f"  let {s.targets[0].id}_ := {side(s.value)}\n")
+        loc[s.targets[0].id] = s.targets[0].id + "_"
+    if not (isinstance(rb[-1], ast.Return) and isinstance(rb[-1].value, ast.Tuple) and len(rb[-1].value.elts) == 2):
+        raise TErr("__resolve_expr_sides: does not return a pair")
+    out += "/-- `OperableAxis.__resolve_expr_sides(self, other, *, reverse=False)` -/\n"
+    out += "def resolveSides (self other : Sym) (reverse : Bool) : Sym × Sym :=\n" + "".join(lines) + f"  ({side(rb[-1].value.elts[0])}, {side(rb[-1].value.elts[1])})\n\n"
+    dunders = []
+    for m in classes["OperableAxis"].body:
+        if isinstance(m, ast.FunctionDef) and m.name.startswith("__") and m.name.endswith("__") and m.name not in ("__str__", "__repr__"):
+            b = _strip(m.body)
+            ok = [a.arg for a in m.args.args] == ["self", "other"] and len(b) == 1 and isinstance(b[0], ast.Return)
+            c = b[0].value if ok else None
+            ok = ok and isinstance(c, ast.Call) and _src(c.func) == "ComputedAxis" and len(c.args) == 1 and isinstance(c.args[0], ast.Call)
+            inner = c.args[0] if ok else None
+            ok = ok and isinstance(inner.func, ast.Name) and len(inner.args) == 1 and isinstance(inner.args[0], ast.Starred) and not inner.keywords
+            call = inner.args[0].value if ok else None
+            # (name mangling: inside the class body `self.__resolve_expr_sides` is `self._OperableAxis__resolve_expr_sides`)
+            ok = ok and isinstance(call, ast.Call) and _src(call.func) == "self.__resolve_expr_sides" and [_src(a) for a in call.args] == ["other"]
+            if ok:
+                kw = {k.arg: _src(k.value) for k in call.keywords}
+                ok = set(kw) <= {"reverse"} and kw.get("reverse", "False") in ("True", "False")
+            if not ok:
+                raise TErr(f"OperableAxis.{m.name}: `{_src(m.body[-1])[:120]}`")
+            if inner.func.id not in SYM_DUNDER_NODE:
+                raise TErr(f"OperableAxis.{m.name} builds {inner.func.id}")
+            dunders.append((m.name, inner.func.id, kw.get("reverse", "False") == "True"))
+    out += "/-- the operator methods of `OperableAxis`: (method, operation class, reverse=) -/\n"
+    out += "def dunders : List (String × String × Bool) := [" + ", ".join(f"({_lstr(a)}, {_lstr(b)}, {'true' if c else 'false'})" for a, b, c in dunders) + "]\n\n"
+    out += "def nodeOfClass : String → Option (Sym → Sym → Sym)\n" + "".join(f"  | {_lstr(k)} => some ({v})\n" for k, v in SYM_DUNDER_NODE.items()) + "  | _ => none\n\n"
+    out += ("/-- the object `self.<method>(other)` returns -/\ndef applyDunder (method : String) (self other : Sym) : Option Sym :=\n"
+            "  match dunders.lookup method with\n  | none => none\n  | some (cls, rev) =>\n    match nodeOfClass cls with\n    | none => none\n"
+            "    | some mk => let p := resolveSides self other rev; some (mk p.1 p.2)\n\n")
+
+    # ---- entries of Shape[...] ------------------------------------------------------------------------------------
+    f = method("ConstantAxis", "__init__")
+    if f is None or [a.arg for a in f.args.args] != ["self", "identifier", "value"] or [_src(s) for s in _strip(f.body)] != ["self._identifier = str(identifier)", "self._value = value"]:
+        raise TErr("ConstantAxis.__init__")
+    f = method("AnonymousAxis", "__init__")
+    if f is None or [a.arg for a in f.args.args] != ["self", "maybe_name"] or [_src(s) for s in _strip(f.body)] != ["self._identifier = maybe_name"]:
+        raise TErr("AnonymousAxis.__init__")
+    out += "/-- `str()` of one entry of `Shape[...]` -/\ndef axisStr : Axis → Except PrintErr (List Char)\n  | .expr s => symStr s\n"
+    out += "  | .ellipsis => " + SymStr("AnonymousAxis.__str__", {"_identifier": ("strflag", "([] : List Char)", False)}).body(str_of("AnonymousAxis").body) + "\n"
+    out += "  | .anon maybe_name => " + SymStr("AnonymousAxis.__str__", {"_identifier": ("strflag", "maybe_name", True)}).body(str_of("AnonymousAxis").body) + "\n"
+    out += "  | .const identifier value => " + SymStr("ConstantAxis.__str__", {"_identifier": ("name", "identifier"), "_value": ("int", "value")}).body(str_of("ConstantAxis").body) + "\n\n"
+    f = method("Shape", "__init__")
+    want = ["_symbols = symbols if isinstance(symbols, tuple) else (symbols,)",
+            "self._raveled_expressions = [AnonymousAxis(...) if isinstance(symbol, EllipsisType) else symbol for symbol in _symbols]"]
+    if f is None or [a.arg for a in f.args.args] != ["self", "symbols"] or [_src(s) for s in _strip(f.body)] != want:
+        raise TErr("Shape.__init__: " + " ; ".join(_src(s)[:90] for s in _strip(f.body)) if f else "Shape.__init__ not found")
+    f = method("Shape", "__class_getitem__")
+    if f is None or [a.arg for a in f.args.args] != ["cls", "args"] or [_src(s) for s in _strip(f.body)] != ["return cls(args)"]:
+        raise TErr("Shape.__class_getitem__ is not `return cls(args)`")
+    f = str_of("Shape")
+    b = _strip(f.body)
+    ok = len(b) == 1 and isinstance(b[0], ast.Return) and isinstance(b[0].value, ast.Call) and isinstance(b[0].value.func, ast.Attribute) \
+        and b[0].value.func.attr == "join" and isinstance(b[0].value.func.value, ast.Constant) and isinstance(b[0].value.func.value.value, str) \
+        and [_src(a) for a in b[0].value.args] == ["map(str, self._raveled_expressions)"]
+    if not ok:
+        raise TErr(f"Shape.__str__: `{_src(b[0])[:100]}`")
+    sep = b[0].value.func.value.value
+    out += "/-- `str(Shape[...])`: every entry of the subscript is constructed before `Shape` prints any of them -/\n"
+    out += "def buildAxis : Axis → Except PrintErr Unit\n  | .expr s => symBuild s\n  | _ => .ok ()\n\n"
+    out += "def shapeStr (axes : List Axis) : Except PrintErr (List Char) := do\n"
+    out += "  let _ ← axes.mapM buildAxis\n"
+    out += f"  let parts ← axes.mapM axisStr\n  pure (joinStr {_lstr(sep)}.toList parts)\n\n"
+
+    # ---- TensorTypeBase.__class_getitem__ -------------------------------------------------------------------------
+    with open(os.path.join(lib_dir, "_tensor_type_base.py")) as fh:
+        tmod = ast.parse(fh.read(), filename="_tensor_type_base.py")
+    f = _find_method(tmod, "TensorTypeBase", "__class_getitem__")
+    b = _strip(f.body)
+    if [a.arg for a in f.args.args] != ["cls", "shape_string"] or [_src(d) for d in f.decorator_list] != ["classmethod"] or len(b) != 1 or not isinstance(b[0], ast.Return):
+        raise TErr("TensorTypeBase.__class_getitem__: signature")
+    c = b[0].value
+    if not (isinstance(c, ast.Call) and _src(c.func) == "cls" and len(c.args) == 1 and not c.keywords):
+        raise TErr(f"TensorTypeBase.__class_getitem__: `{_src(c)[:100]}`")
+
+    def arg_for(kind):
+        """the argument of `cls(...)` for a subscript of class `kind` -> (monadic?, Lean term : Option (List Char))"""
+        def go(e):
+            if isinstance(e, ast.Name) and e.id == "shape_string":
+                return {"str": (False, "(some s)"), "NoneType": (False, "none"), "Shape": None}[kind]
+            if isinstance(e, ast.Call) and _src(e.func) == "str" and [_src(a) for a in e.args] == ["shape_string"]:
+                return {"str": (False, "(some s)"), "NoneType": (False, "(some \"None\".toList)"), "Shape": (True, "shapeStr axes")}[kind]
+            if isinstance(e, ast.IfExp) and isinstance(e.test, ast.Call) and _src(e.test.func) == "isinstance" and _src(e.test.args[0]) == "shape_string":
+                names = _union_names(e.test.args[1])
+                if names is None:
+                    return None
+                return go(e.body) if kind in names else go(e.orelse)
+            return None
+        r = go(c.args[0])
+        if r is None:
+            raise TErr(f"TensorTypeBase.__class_getitem__: argument `{_src(c.args[0])[:100]}` for a subscript of class {kind}")
+        return r
+
+    out += "/-- the subscript of `TensorType[...]` -/\ninductive GetItemArg\n  | str (s : List Char)\n  | none\n  | shape (axes : List Axis)\n\n"
+    out += "/-- `TensorTypeBase.__class_getitem__`: a symbolic shape is printed and handed to the string parser -/\n"
+    out += "def classGetItem (cls : Nat) : GetItemArg → Except PrintErr (Except ShapeErr Ann)\n"
+    for kind, pat in (("str", ".str s"), ("NoneType", ".none"), ("Shape", ".shape axes")):
+        monadic, term = arg_for(kind)
+        if monadic:
+            out += f"  | {pat} => do let printed ← {term}; pure (construct (some printed) cls false)\n"
+        else:
+            out += f"  | {pat} => .ok (construct {term} cls false)\n"
+    out += "\nend Dltype.Gen\n"
+    return out
